@@ -1958,7 +1958,11 @@ func runLogCrashesOpt(cfg *config, id int, r *hx.Rng, bulk bool) {
 			break
 		}
 		var q string
-		switch r.Intn(4) {
+		kind := r.Intn(4)
+		if bulk {
+			kind = 3 // small INSERTs only: a statement over 450 rows would make thousands of crash images
+		}
+		switch kind {
 		case 0:
 			q = "UPDATE " + t.name + " SET " + genSet(r, t)
 			if r.Bool() {
